@@ -237,6 +237,10 @@ class _Simplify(ast.NodeTransformer):
 
     def visit_Call(self, node):
         node = self.generic_visit(node)
+        # getattr(o, 'name') -> o.name
+        if isinstance(node.func, ast.Name) and node.func.id == 'getattr' and len(node.args) == 2 and not node.keywords \
+                and isinstance(node.args[1], ast.Constant) and isinstance(node.args[1].value, str) and node.args[1].value.isidentifier():
+            return ast.Attribute(value=node.args[0], attr=node.args[1].value, ctx=ast.Load())
         # list(chain([a], gen, [b])) -> [a, *gen, b]: one spelling for a sequence however it was put together
         if isinstance(node.func, ast.Name) and node.func.id == 'list' and len(node.args) == 1 and not node.keywords \
                 and isinstance(node.args[0], (ast.Call, ast.List, ast.Tuple, ast.BinOp)):
